@@ -37,13 +37,31 @@ func main() {
 		replay(a, res)
 		return
 	}
+	if a.Extra == "closerace" {
+		// experiment only: never reported as a violation (see race.go and the report)
+		trials, hits := closeRaceExperiment(60 * time.Second)
+		res.Extra["closerace_trials"] = trials
+		res.Extra["closerace_reproductions"] = hits
+		fmt.Printf("closerace: %d trials, %d reproductions\n", trials, hits)
+		t2, h2 := forceCloseRaceExperiment(40 * time.Second)
+		res.Extra["forcecloserace_trials"] = t2
+		res.Extra["forcecloserace_double_finalisations"] = h2
+		fmt.Printf("forcecloserace: %d trials, %d double finalisations\n", t2, h2)
+		return
+	}
 
-	nK, nBigK, nP, nStress := 420, 2, 30000, 40
+	nK, nBigK, nP, nStress := 320, 2, 30000, 40
 	if a.Thorough() {
 		nK, nBigK, nP, nStress = 1600, 6, 1500000, 2000
 	}
+	seqBudget, stressBudget := 40*time.Second, 28*time.Second
+	if a.Thorough() {
+		seqBudget, stressBudget = 10*time.Minute, 14*time.Minute
+	}
 	if a.Extra == "search" {
+		// the check driver's search step: no (K) cases, a bounded burst of the (P) oracles
 		nK, nBigK = 0, 0
+		seqBudget, stressBudget = 50*time.Second, 70*time.Second
 	}
 	root := vlib.NewRNG(a.Seed)
 
@@ -90,7 +108,7 @@ func main() {
 		wg.Add(1)
 		go func(w int) {
 			defer wg.Done()
-			for i := 0; i < cnt && res.NViolations() < 5; i++ {
+			for i := 0; i < cnt && res.NViolations() < 5 && time.Since(t0) < seqBudget; i++ {
 				var sc SeqCase
 				if i%1500 == 7 {
 					sc = genBig(wr, wr.Intn(4))
@@ -108,11 +126,7 @@ func main() {
 	// ---- (P) concurrent stress
 	t1 := time.Now()
 	rs := root.Fork()
-	budget := 28 * time.Second
-	if a.Thorough() {
-		budget = 14 * time.Minute
-	}
-	for i := 0; i < nStress && res.NViolations() < 5 && time.Since(t1) < budget; i++ {
+	for i := 0; i < nStress && res.NViolations() < 5 && time.Since(t1) < stressBudget; i++ {
 		cfg := genStress(rs, i, a.Thorough())
 		so := runStressWatched(cfg)
 		recordStress(res, cfg, so)
